@@ -32,7 +32,7 @@ WILD = re.compile(r'^___$')
 PRIMS = (int, float, str, bool, bytes, complex, type(None), type(Ellipsis))
 
 _steps = st.lists(st.tuples(st.sampled_from(['wild', 'wild', 'rename', 'rename', 'drop']), st.integers(0, 40), st.booleans()).map(list), max_size=4)
-MUTATIONS = ['rename-id', 'literal', 'literal-type', 'operator', 'swap-args', 'dup-var', 'add-stmt', 'global-extra', 'compare-op', 'compare-op', 'none']
+MUTATIONS = ['rename-id', 'literal', 'literal-type', 'operator', 'swap-args', 'dup-var', 'add-stmt', 'global-extra', 'compare-op', 'compare-op', 'flag', 'flag', 'none']
 
 
 def cases(tier):
@@ -260,6 +260,19 @@ def mutate_pattern(pattern, mutation, index, program):
         if not gl:
             return None
         gl[index % len(gl)].names.append('extra_name_zq')
+    elif mutation == 'flag':
+        # content that is a plain number / flag of a statement rather than a literal: how relative an import is, whether an
+        # annotated target is a bare name
+        flagged = [n for n in nodes if isinstance(n, ast.ImportFrom) or (isinstance(n, ast.AnnAssign) and isinstance(n.target, ast.Name))]
+        if not flagged:
+            return None
+        t = flagged[index % len(flagged)]
+        if isinstance(t, ast.ImportFrom):
+            t.level = 0 if t.level else 1 + index % 2
+            if t.level == 0 and not t.module:
+                return None
+        else:
+            t.simple = 0 if t.simple else 1       # `(x): int = 1` instead of `x: int = 1`
     try:
         out = ast.unparse(ast.fix_missing_locations(tree))
         ast.parse(out)
@@ -312,7 +325,7 @@ def check_match(m, viol, desc):
         if isinstance(pa, (ast.Pass, ast.Module)):
             continue
         if isinstance(pa, ast.Expr):
-            continue      # transparent wrapper
+            continue      # transparent wrapper (pedal: "an Expression node should match to anything", shallow_match_Expr)
         if isinstance(pa, (ast.expr_context,)):
             continue
         if type(pa) is not type(sa):
